@@ -46,10 +46,33 @@ S = {
     "respect_gitignore": dict(default=True, flags=[(["--no-respect-gitignore"], False)], cfgs=[False, True], key="respect-gitignore", kind="disc"),
     "force_exclude": dict(default=False, flags=[(["--force-exclude"], True)], cfgs=[True, False], key="force-exclude", kind="disc"),
 }
+# Other spellings of the same flags that the real argument parser accepts (single-setting space only): short-option clusters with an
+# untracked letter before / after, glued values, `=` forms and unambiguous abbreviations.  "The flag was passed" does not depend on spelling.
+SPELLINGS = {
+    "width": [(["-w40"], 40), (["--width=88"], 88), (["-iw40"], 40), (["--wid", "40"], 40), (["-iw", "88"], 88)],
+    "semantic": [(["-is"], True), (["-si"], True), (["--sem"], True), (["-ps"], True)],
+    "cleanups": [(["-ic"], True), (["-ci"], True), (["--clean"], True)],
+    "smartquotes": [(["--smartq"], True)],
+    "ellipses": [(["--ellip"], True)],
+    "list_spacing": [(["--list-spacing=loose"], "loose"), (["--list-sp", "preserve"], "preserve")],
+    "extend_include": [(["--extend-include=*.mdx"], ["*.mdx"]), (["--extend-inc", "*.mdx"], ["*.mdx"])],
+    "exclude": [(["--exclude=drafts/"], ["drafts/"]), (["--exclu", "drafts/"], ["drafts/"])],
+    "extend_exclude": [(["--extend-exc", "drafts/"], ["drafts/"])],
+    "files_max_size": [(["--files-max-size=100"], 100), (["--files-max", "1048576"], 1048576)],
+    "respect_gitignore": [(["--no-respect"], False)],
+    "force_exclude": [(["--force-ex"], True)],
+}
+for _n, _sp in SPELLINGS.items():
+    S[_n]["nbase"] = len(S[_n]["flags"])
+    S[_n]["flags"] = S[_n]["flags"] + _sp
 NAMES = list(S)
 SECTION = {"fmt": "formatting", "disc": "file-discovery"}
 KINDS = [(fn, sect, snake) for fn in (".flowmark.toml", "flowmark.toml", "pyproject.toml") for sect in (False, True) for snake in (False, True)]
-LOCS = ["cwd", "parent", "shadow", "two-kinds", "pyproject-no-table-below", "nearer-lower-rank"]
+LOCS = ["cwd", "parent", "shadow", "two-kinds", "pyproject-no-table-below", "nearer-lower-rank",
+        # appended later: the nearest config is a pyproject.toml whose [tool.flowmark] table exists but is empty (or holds only an empty
+        # sub-table): it IS the nearest config, so the values of the file further up must not apply
+        "empty-table-nearer", "empty-subtable-nearer"]
+LOSING_LOCS = ("empty-table-nearer", "empty-subtable-nearer")
 
 
 def toml_value(v):
@@ -131,6 +154,9 @@ def build_tree(values, kind, loc):
         files[f"proj/{fn}"] = win
         for hf in order[:order.index(fn)] or [fn]:
             files[hf] = config_text(decoy_values(values), hf, sect, snake)
+    elif loc in LOSING_LOCS:
+        files["proj/pyproject.toml"] = "[tool.flowmark]\n" if loc == "empty-table-nearer" else "[tool.other]\nx = 1\n\n[tool.flowmark.formatting]\n"
+        files[fn] = win   # here `values` are the ones that must LOSE
     elif loc == "pyproject-no-table-below":
         files["proj/pyproject.toml"] = '[tool.other]\nwidth = 1\n'
         files[fn] = win
@@ -193,7 +219,7 @@ class Precedence(Space):
 
     def _states(self, n):
         s = S[n]
-        flags = [None] + list(range(len(s["flags"])))
+        flags = [None] + list(range(len(s["flags"]) if not self.pairs else s.get("nbase", len(s["flags"]))))
         cfgs = [None] + list(range(len(s["cfgs"])))
         return flags, cfgs
 
@@ -287,7 +313,7 @@ class Precedence(Space):
             if n in names:
                 i = names.index(n)
                 fv = S[n]["flags"][fs[i]][1] if fs[i] is not None else _ABSENT
-                cv = S[n]["cfgs"][cs[i]] if cs[i] is not None else _ABSENT
+                cv = S[n]["cfgs"][cs[i]] if cs[i] is not None and LOCS[l] not in LOSING_LOCS else _ABSENT
             else:
                 fv = cv = _ABSENT
             exp = expected(n, fv, cv, auto)
